@@ -907,7 +907,7 @@ class Attrs(Family):
             base = [['parse', rng.choice(SAMPLE_FILES).hex()]] if rng.random() < 0.5 else \
                 [['new', []], ['add_change', 0, []], ['add_file', 0, 0, [['meta', {'d': {'p': 1}}]]]]
             for p, names in (('main', ATTRS_MAIN), (['c', 0], ATTRS_CHANGE), (['f', 0, 0], ATTRS_FILE)):
-                for a in names + ['bogus', 'content', 'length']:
+                for a in names + ['bogus', 'content', 'length', 'meta_content', 'preamble_content', 'diff_content']:
                     for v in CANDIDATES:
                         yield dict(kind='assign', ops=base + [['set', 0, p, a, v], ['to_bytes', 0]])
             for a in ['bogus', 'lenght', 'diff', 'preamble_bogus']:
